@@ -16,7 +16,8 @@ MANIFEST = dict(
          "exactly by TLC on the cell sequences (TraceOrd.tla, as C11). L3 (the expectation itself): frequency validation - "
          "per cell N trials with fresh random element labels, mean fraction of equal positions within the empirical-Bernstein "
          "radius (delta = 1e-9 per cell) of the oracle value. Cells: distinct / repeated / shifted / edited / reversed "
-         "sequences, l in {1,2,3,5}, m in {1,4,16}.",
+         "sequences, l in {1,2,3,5}, m in {1,4,16}."
+         " Cells also use the crate's identity hasher and a true identity hasher with neighbouring integer labels, and long runs (multiplicities up to 512, 66000 in thorough) with the closed form of the same definition for l = 1 (cross-checked against the enumeration on every small l = 1 cell).",
     design_ref="DESIGN.md section 2.6 and section 4, C10/C11",
     note="statistical test, not model checking: effects below the radius (about 0.004-0.01 quick, 0.002 thorough) are "
          "invisible; false-alarm probability <= 1e-9 per cell; trusted: TLC for the oracle on small cells, the harness "
